@@ -142,12 +142,19 @@ Mon22Step(g, e) ==
                              !.fresh = TRUE, !.since = e.ka]
         ELSE IF ~x.known THEN x
         ELSE IF e.ev = "DeleteSub" /\ e.sub = i THEN [x EXCEPT !.deleted = TRUE]
+        \* ModifySubscription: new interval and counts; the statement is silent, the counters restart (the lenient reading)
+        ELSE IF e.ev = "ModifySub" /\ e.sub = i
+        THEN [x EXCEPT !.maxKA = e.ka, !.maxLT = e.lt, !.itv = e.itv, !.since = 0, !.availSince = TRUE,
+                       !.idleLoose = 0, !.idleStrict = 0]
         ELSE
-        LET el == e.ev = "Tick" /\ e.t - x.lastEl >= x.itv
+        LET \* the publishing timer: the first timer tick of a subscription that is still being created counts as an
+            \* interval but does not restart the timer (it keeps running from the creation time)
+            el == e.ev = "Tick" /\ (x.fresh \/ e.t - x.lastEl >= x.itv)
             closedNow == ~HasSub(e, i) \/ StSub(e, i).st = "Closed"
             m == got(i)
         IN [x EXCEPT
-              !.lastEl = IF el THEN e.t ELSE @,
+              !.lastEl = IF el /\ ~x.fresh THEN e.t ELSE @,
+              !.fresh = HasSub(e, i) /\ StSub(e, i).st = "Creating",
               !.since = IF m THEN 0 ELSE IF el THEN @ + 1 ELSE @,
               !.availSince = IF m THEN TRUE ELSE IF el THEN @ /\ enough ELSE @,
               !.idleLoose  = IF resets(i) \/ m THEN 0 ELSE IF el /\ ~enough THEN @ + 1 ELSE IF el THEN 0 ELSE @,
@@ -157,7 +164,7 @@ Mon22Step(g, e) ==
       s1 == [i \in SubIds |-> step(i)]
       viol(i) ==
         LET x == g.s[i]  y == s1[i]
-            el == e.ev = "Tick" /\ x.known /\ e.t - x.lastEl >= x.itv IN
+            el == e.ev = "Tick" /\ x.known /\ (x.fresh \/ e.t - x.lastEl >= x.itv) IN
         IF ~x.known \/ x.deleted \/ y.deleted THEN {}
         ELSE
           \* keep-alive clause: with requests available at every elapsed interval since the last message,
@@ -252,7 +259,7 @@ M27Init == [prio |-> [i \in SubIds |-> 0], nq |-> [i \in SubIds |-> 0]]
 \* (whose responses stay in the server's response queue until the next timer tick), the subscriptions whose number of
 \* pending notifications went down. Left unserved: the subscriptions that still have notifications pending afterwards.
 Mon27Step(g, e) ==
-  LET g1 == IF e.ev = "CreateSub" THEN [g EXCEPT !.prio[e.sub] = e.prio] ELSE g
+  LET g1 == IF e.ev \in {"CreateSub", "ModifySub"} THEN [g EXCEPT !.prio[e.sub] = e.prio] ELSE g
       nqNow == [i \in SubIds |-> IF HasSub(e, i) THEN StSub(e, i).nq ELSE 0]
       g2 == [g1 EXCEPT !.nq = nqNow]
   IN
